@@ -161,7 +161,8 @@ class Module:
         self._raw_tree = None
         self.tree = _StripDebug().visit(ast.parse(src, filename=path))
         # alpha-renaming invariance: locals renamed relative to the reviewed reference get their reference names back
-        from . import alpha
+        from . import alpha, normalize
+        self.normalized = normalize.normalize(self.tree, name, alpha.load_reference())
         self.restored_locals = []
         alpha.restore_local_names(self.tree, name, self.restored_locals)
         set_parents(self.tree)
